@@ -343,7 +343,7 @@ pub fn property() -> Property {
         parts: vec![Box::new(GenPart {
             name: "ledger-histories",
             rule: "see property rule",
-            cases: (1_200_000, 8_000_000),
+            cases: (1_200_000, 24_000_000),
             fuzz_decode: Some(crate::fuzzdec::c08_case),
             strategy,
             check,
